@@ -51,13 +51,14 @@ theorem write_tail_abs (X : Ctx) (s : St) (es xs : List Elem) (h : Abs X s.v es)
     ∃ v', VM.forN xs.length (fun i => VM.wr (.at (dataOff s.v.align)) (es.length + i) (xs.getD i default)) s =
         (.ok (), { s with v := v' }) ∧
       Abs X { v' with len := es.length + xs.length } (es ++ xs) ∧ v'.len = s.v.len ∧ v'.cap = s.v.cap ∧
-      v'.isDefault = false ∧ v'.align = s.v.align ∧ v'.blk.map (·.bid) = s.v.blk.map (·.bid) := by
+      v'.isDefault = false ∧ v'.align = s.v.align ∧ v'.blk.map (·.bid) = s.v.blk.map (·.bid) ∧
+      v'.blk.map (·.lay) = s.v.blk.map (·.lay) := by
   obtain ⟨b, hb, hl, hsl, hlc, hel, hinit⟩ := h.alloc hd
   have hal : b.lay.align = s.v.align := (make_layout_honest _ _ _ _ hl).2.1
   have hcapb : s.v.cap ≤ b.slots.length := by rw [hsl]; exact physSlots_ge X.env _ _ _ hl h.elem_pos
   obtain ⟨b', hrun, hlay, hbid, hl', hget⟩ := forN_wr_go es.length xs xs.length 0 s b hb (by omega) (by omega)
   rw [hal] at hrun
-  refine ⟨{ s.v with blk := some b' }, by simpa [VM.forN] using hrun, ?_, rfl, rfl, hd, rfl, by simp [hb, hbid]⟩
+  refine ⟨{ s.v with blk := some b' }, by simpa [VM.forN] using hrun, ?_, rfl, rfl, hd, rfl, by simp [hb, hbid], by simp [hb, hlay]⟩
   refine ⟨h.elem_pos, fun hx => by simp [hd] at hx, fun _ => ⟨b', rfl, by rw [hlay]; exact hl, by rw [hl', hlay]; exact hsl,
     by simpa using hroom, by simp, ?_⟩⟩
   intro i hi
